@@ -293,8 +293,10 @@ def sample_fields(b):
 
 def corpus(r, quick):
     """yield (origin, bytes, meta)"""
-    nbase = 22 if quick else 600
-    per_field = 10 if quick else 10 ** 6
+    # thorough: bounded so that the whole corpus (kept in memory for the batched driver calls) stays around 1 GB:
+    # every field of small images, a sample of 120 fields of the big (up to 200 sections) ones
+    nbase = 22 if quick else 100
+    per_field = 10 if quick else 30
     for i in range(nbase):
         b, m = gen_pe(r, big=(not quick and i % 25 == 0))
         fields, bounds = m.pop("fields"), m.pop("bounds")
